@@ -7,6 +7,11 @@ R:   every behaviour is laid out as three real files (targets emitted by the rea
      surrounded by unrelated imports / definitions), the real `sync` command runs in-process 2 (quick) / 3 (thorough) times;
      after every run each target is re-parsed with the matching real parser and compared with the truth's interface, the
      surrounding code and the truth file are compared with their originals, and the bytes of run n+1 with those of run n.
+V:   the same runs are recorded as traces -- per run and file: raised / named target present / equivalent to the truth / bytes changed /
+     surroundings kept -- and validated by TLC against Sync.tla's OWN action as built (TraceSync.tla EXTENDS Sync; a corrupted trace must
+     be rejected on every run).  TLC's verdict decides attribution: a behaviour on which the predicates fail is a KNOWN-FINDING only if
+     its trace is exactly a behaviour of the as-built model; otherwise it is a VIOLATION.  (Trace validation made the as-built model
+     exact twice: the misnamed class needs the file to be MISSING, and it settles after three runs.)
 """
 
 import ast
@@ -120,7 +125,7 @@ def run_case(args):
 
     g = G.Gamma(0)
     d = tempfile.mkdtemp(prefix="c12-", dir=workroot)
-    res = {"case": case, "fails": [], "log": []}
+    res = {"case": case, "fails": [], "log": [], "obs": []}
     try:
         paths = {k: os.path.join(d, k + "_file.py") for k in ("cls", "fn", "ap")}
         original = {}
@@ -155,6 +160,7 @@ def run_case(args):
             res["log"].append(raised)
             if raised:
                 res["fails"].append(("raises", "run {}: sync raises {}".format(run_no, raised)))
+                res["obs"].append({"raised": True, **{k: {"present": False, "eq": False, "changed": False, "around": True} for k in ("cls", "fn", "ap")}})
                 break
             now = {}
             for k in ("cls", "fn", "ap"):
@@ -184,6 +190,21 @@ def run_case(args):
                             res["fails"].append(("AroundUnchanged:" + k, "run {}: code outside the named target of {} changed".format(run_no, k)))
                     except SyntaxError:
                         pass
+            ob = {"raised": False}
+            before_run = prev if prev is not None else original
+            for k in ("cls", "fn", "ap"):
+                text = now.get(k)
+                try:
+                    core = core_of(k, text) if text is not None else "target not found"
+                except Exception:  # noqa
+                    core = "unparsable"
+                try:
+                    ar = True if not (k in original and original[k].strip()) or text is None else around_of(text) == around_of(original[k])
+                except SyntaxError:
+                    ar = False
+                ob[k] = {"present": isinstance(core, list), "eq": isinstance(core, list) and equivalent(k, core, want_core, truth),
+                         "changed": text != before_run.get(k), "around": ar}
+            res["obs"].append(ob)
             if prev is not None and now != prev:
                 changed = [k for k in now if now.get(k) != prev.get(k)]
                 res["fails"].append(("SecondRunNoop", "run {} changed bytes of {} again".format(run_no, changed)))
@@ -233,6 +254,7 @@ def _check(run, replay, work):
         run.exhaustive = True
     items = [(c, work, 2 if quick else 3) for c in cases]
     tri = {}
+    traces, verdicts, pending = [], {}, []
     n = 0
     for rb in pmap(_batch, [items[k:k + 4] for k in range(0, len(items), 4)], chunksize=1):
         for res in rb:
@@ -240,37 +262,83 @@ def _check(run, replay, work):
             n += 1
             run.replayed += 1
             key = json.dumps([case["truth"], case["init"]], sort_keys=True)
+            tid = "b{}".format(n)
+            traces.append({"tid": tid, "truth": case["truth"], "obs": res.get("obs", []),
+                           "init": {k: {"iface": case["init"][k]["iface"], "around": case["init"][k]["around"]} for k in ("cls", "fn", "ap")}})
+            verdicts[tid] = "held" if not res["fails"] else "not held"
             for d in case["devs"]:
                 run.trigger(d)
             label = "truth={} cls={} fn={} ap={}".format(case["truth"], *["{}/{}".format(case["init"][k]["iface"], case["init"][k]["around"])
                                                                           for k in ("cls", "fn", "ap")])
-            if not res["fails"]:
-                run.held(key)
-                continue
-            # attribution: which failing clauses does the as-built model explain exactly?
-            unexplained = []
-            used = set()
-            for clause, msg in res["fails"]:
-                k = clause.split(":")[1] if ":" in clause else None
-                if clause.startswith("AllEquivalent:") and k in ("fn", "ap") and "sync_functiondef_not_replaced" in case["devs"] \
-                        and case["init"][k]["iface"] != "-" and case["final"][k] == case["init"][k]:
-                    used.add("sync_functiondef_not_replaced")
-                elif clause in ("AllEquivalent:cls", "SecondRunNoop") and "sync_created_class_named_after_truth" in case["devs"] \
-                        and case["final"]["cls"]["iface"] == "misnamed" and ("target not found" in msg or "['cls']" in msg):
-                    used.add("sync_created_class_named_after_truth")
-                elif clause == "raises" and case["failed"] and "sync_missing_function_target_raises" in case["devs"] and "TypeError" in msg:
-                    used.add("sync_missing_function_target_raises")
-                else:
-                    unexplained.append((clause, msg))
-            if unexplained:
-                run.violation("{}: {}".format(label, "; ".join(m for _, m in unexplained[:3])), {"case": case, "log": res["log"]}, key=key)
-                k2 = (case["truth"], unexplained[0][0], unexplained[0][1][:70])
-                tri[k2] = tri.get(k2, 0) + 1
-            else:
-                for fid in sorted(used):
-                    run.finding(fid, "{}: {}".format(label, res["fails"][0][1][:160]), case={"case": case}, key=key)
-            if len(run.samples) < 2 and n % 53 == 1:
-                run.sample({"truth": case["truth"], "init": case["init"], "model_final": case["final"], "fails": res["fails"][:2]})
+            pending.append((tid, case, res, key, label))
+    # (V) TLC validates every recorded behaviour against Sync.tla's own action, as built (the listed findings enabled)
+    acc, rej = _validate_traces(run, traces, verdicts, work)
+    for tid, case, res, key, label in pending:
+        if not res["fails"]:
+            run.held(key)
+        elif tid in acc and case["devs"]:
+            # the property's predicates fail, and the behaviour is EXACTLY the as-built model's (run by run: raised / present / equivalent /
+            # bytes changed / surroundings kept): the listed deviations that fire on this behaviour explain it
+            for fid in case["devs"]:
+                run.finding(fid, "{}: {}".format(label, res["fails"][0][1][:160]), case={"case": case}, key=key)
+        else:
+            why = "" if tid in acc else "  [TraceSync: run {} does not match the as-built model on {}]".format(rej[tid]["run"], rej[tid]["clauses"]) \
+                if tid in rej else ""
+            run.violation("{}: {}{}".format(label, "; ".join(m for _, m in res["fails"][:3]), why), {"case": case, "log": res["log"]}, key=key)
+            k2 = (case["truth"], res["fails"][0][0], res["fails"][0][1][:70])
+            tri[k2] = tri.get(k2, 0) + 1
+        if len(run.samples) < 2 and tid.endswith("3"):
+            run.sample({"truth": case["truth"], "init": case["init"], "model_final": case["final"], "fails": res["fails"][:2]})
     if os.environ.get("VERIF_TRIAGE"):
         for k, v in sorted(tri.items(), key=lambda kv: -kv[1])[:40]:
             print("TRIAGE", v, k)
+
+
+def _validate_traces(run, traces, verdicts, work):
+    """(V) every recorded behaviour of the real command is validated by TLC against Sync.tla's own action (TraceSync.tla)"""
+    from harness import conv
+
+    if not traces:
+        return set(), {}
+    import copy
+    good = next((t for t in traces if verdicts.get(t["tid"]) == "held" and t["obs"] and not t["obs"][-1]["raised"]), None)
+    if good is not None:
+        bad = copy.deepcopy(good)
+        bad["tid"] = "CORRUPT"
+        k = next(k for k in ("cls", "fn", "ap") if k != bad["truth"])
+        bad["obs"][-1][k]["eq"] = not bad["obs"][-1][k]["eq"]
+        traces = traces + [bad]
+    tf = os.path.join(work, "sync_traces.json")
+    with open(tf, "w") as f:
+        json.dump(traces, f)
+    r = run.tlc("TraceSync", "MC_TraceSync.cfg", workers=NCPU, env={"TRACE_FILE": tf}, timeout=1800,
+                constants={"MaxRuns": 3, "Enabled": conv.enabled_constant(run)})
+    acc = {d["accept"] for d in r.printed if isinstance(d, dict) and "accept" in d}
+    rej = {d["reject"]: d for d in r.printed if isinstance(d, dict) and "reject" in d}
+    if good is not None and "CORRUPT" not in rej:
+        raise MachineryError("binding demonstration failed: TraceSync accepted a trace whose last observation was corrupted")
+    rej.pop("CORRUPT", None)
+    ids = {t["tid"] for t in traces if t["tid"] != "CORRUPT"}
+    undecided = ids - acc - set(rej)
+    if undecided:
+        raise MachineryError("TraceSync left {} traces without a verdict, e.g. {}".format(len(undecided), sorted(undecided)[:3]))
+    # the two deciders must agree: a trace TLC rejects is a case the predicate-based verdict did not hold on, and vice versa
+    py_not_held = {tid for tid, v in verdicts.items() if v != "held"}
+    only_tlc = sorted(set(rej) - py_not_held)
+    only_py = sorted(py_not_held - set(rej))
+    run.extra["traces_validated_by_tlc"] = len(ids)
+    run.extra["traces_rejected_by_tlc"] = len(rej)
+    for tid in only_tlc[:5]:
+        run.model_drift("TraceSync rejects {} at run {} ({}) but the predicate-based verdict held".format(tid, rej[tid]["run"], rej[tid]["clauses"]))
+    run.extra["held_by_predicates_but_rejected_by_tlc"] = len(only_tlc)
+    if os.environ.get("VERIF_TRIAGE"):
+        import collections
+        by = collections.Counter()
+        tmap = {t["tid"]: t for t in traces}
+        for tid, d in rej.items():
+            t = tmap[tid]
+            by[(t["truth"], d["run"], tuple(d["clauses"]), tuple("{}:{}".format(k, t["init"][k]["around"] if t["init"][k]["iface"] == "-" else "present") for k in ("cls", "fn", "ap")))] += 1
+        for k, v in by.most_common(25):
+            print("TRACE-REJECT", v, k)
+    run.extra["rejected_by_predicates_but_accepted_by_tlc"] = len(only_py)
+    return acc, rej
